@@ -1,8 +1,52 @@
 # C01 registry entry: see lib/registry.py for the field meanings
-PROP = {'rule': 'placeholder',
- 'assumptions': [],
+PROP = {'rule': 'rapid state machine over GroupQuotaManager (unit core: the plugin\'s handler calls restated on a bare manager; unit plugin: '
+         'the same histories through the real Plugin.OnQuota*/OnPod*/Reserve/Unreserve/migrateDefaultQuotaGroupsPod). Universe: quotas '
+         'q0..q5 + default + system, depth <= 4, one dimension set {cpu, memory} for every quota, min <= max, lent flag, shared weight; '
+         'pods p0..p7 with 1-2 containers (+ optional init container, + a dimension no quota declares), optional preemptible=false. '
+         'Operations: quotaCreate, quotaUpdate(max|min|weight), toggle allow-lent / is-parent (full rebuild path), quotaReparent, quotaDelete '
+         '(pods removed first, or - orphans mode - still inside), podAdd (also already bound / terminating), podUpdate(resize | relabel | bind | '
+         'terminate | touch), podDelete, reserve, unreserve, migrate cycle (default -> quota), node add/update/delete, ResetQuota, RefreshRuntime. '
+         'Informer semantics: update/delete always carry the object last delivered; unique pod keys; parents exist before children; no parent '
+         'cycles; no Succeeded/Failed pods (the scheduler\'s pod informer filters them). After EVERY operation GetQuotaSummaries(true) is '
+         'compared with a from-scratch recomputation (request = sum of pods + sum of min(childRequest, childMax), raised to min when the group '
+         'does not lend; used = assigned pods of the subtree; non-preemptible variants; pod cache membership and isAssigned), and at the end '
+         'of the run and after every ResetQuota with a fresh manager fed the final objects. A case is non-trivial if it re-parents or deletes a '
+         'quota whose subtree holds an assigned pod, or some group\'s request exceeded its max (clamped branch) during the run; distinct = '
+         'FNV-64 of the operation history. Unit coreConcurrent (-race): fixed tree, per-pod event scripts on distinct pods merged onto 2-8 '
+         'goroutines + a quota max/min/weight retuner + a reader, released together and joined; final summaries must equal the recomputation '
+         'and a fresh manager; non-trivial = >= 2 goroutines with pod operations and >= 6 calls.',
+ 'assumptions': ['all quotas of a run declare exactly {cpu, memory} in max (the statement\'s precondition); child min sums are not constrained '
+                 '(the webhook allows that with the allow-force-update label)',
+                 'a quota is deleted only when it has no child quotas (webhook rule); re-parenting never creates a cycle (C15\'s subject)',
+                 'Reserve/Unreserve receive the pod object last delivered by the informer (with NodeName filled in, as the scheduling cycle '
+                 'does); Unreserve is only issued for a pod that was reserved and is not yet seen bound; Reserve/Unreserve are not issued for '
+                 'a pod that is still parked in the default quota although its own quota exists',
+                 '"assigned" is the manager\'s notion restated: reserved, or seen with a node name (not terminated), until unreserved / '
+                 'deleted / moved to another quota by a label change (then: has a node name)',
+                 'the abstract root group (not part of GetQuotaSummaries) is observed but not asserted: after a rebuild it is charged the '
+                 'default/system quota\'s unclamped request, incrementally the clamped one (class root-group-differs)',
+                 'terminating pods are dropped only under feature gate ElasticQuotaImmediateIgnoreTerminatingPod (set per case, reset after); '
+                 'the wall-clock variant of that gate is not exercised',
+                 'concurrency: the partition onto goroutines and the per-goroutine merge order are generated, the Go scheduler decides the '
+                 'rest; -race plus the commutativity oracle sample the interleavings, they do not enumerate them'],
  'units': [{'name': 'core',
             'pkg': 'pkg/scheduler/plugins/elasticquota/core',
-            'files': ['C01/c01_core_test.go'],
-            'tests': [{'run': 'TestVerifC01CoreHistory', 'quick': 400, 'thorough': 3000, 'steps': 40}]}],
- 'manifest': {'technique': 'property-based testing (rapid)', 'text': 'placeholder', 'note': 'placeholder'}}
+            'files': ['C01/c01_model_core_test.go', 'C01/c01_core_test.go'],
+            'tests': [{'run': 'TestVerifC01CoreHistory', 'quick': 500, 'quick_shards': 2, 'thorough': 3000, 'steps': 40},
+                      {'run': 'TestVerifC01Concurrent', 'quick': 150, 'thorough': 400, 'shards': 6, 'race': True}]},
+           {'name': 'plugin',
+            'pkg': 'pkg/scheduler/plugins/elasticquota',
+            'files': ['C01/c01_model_plugin_test.go', 'C01/c01_plugin_test.go'],
+            'tests': [{'run': 'TestVerifC01PluginHistory', 'quick': 300, 'thorough': 1500, 'shards': 6, 'steps': 40}]}],
+ 'manifest': {'technique': 'property-based testing (rapid): model-based state machine over quota/pod/node event histories with a from-scratch '
+                           'reference recomputation and a fresh-instance differential; concurrent variant under the race detector',
+              'text': 'Generated-input search: histories of quota create/update/re-parent/delete, pod add/update/move/delete, '
+                      'reserve/unreserve, default-quota migration, node events and rebuilds are applied to GroupQuotaManager (directly and '
+                      'through the real Plugin event handlers); after every operation every group\'s used/request/childRequest/self*/'
+                      'non-preemptible figures and pod-cache membership are compared with an independent recomputation from the surviving '
+                      'objects, and at the end with a fresh manager fed the final objects. A concurrent variant issues pod operations on '
+                      'distinct pods from 2-8 goroutines under -race and requires the sequential model\'s final state. Exploration, not '
+                      'proof: absence of violations over the sampled histories and interleavings.',
+              'note': 'fixed dimension set {cpu, memory}; webhook-valid trees (no cycles, parents before children, delete only childless '
+                      'quotas); informer event semantics assumed; root group not asserted; interleavings are sampled (Go scheduler), not '
+                      'enumerated; rapid\'s PRNG and shrinker; Go map iteration inside koordinator is not controlled'}}
